@@ -484,6 +484,16 @@ class SymInt:
     def __rpow__(s, b, m=None):
         return sym_pow(b, s, m)
 
+    def to_bytes(s, length, byteorder="big", signed=False):
+        if signed or isinstance(length, SymInt):
+            raise EngineUnsupported("int.to_bytes with signed/symbolic length")
+        if s < 0:
+            raise OverflowError("can't convert negative int to unsigned")
+        if not (s < 256 ** length):
+            raise OverflowError("int too big to convert")
+        b = SymBytes.from_int(s.t, length)
+        return b if byteorder == "big" else b[::-1]
+
     def bit_length(s):
         # fork over the bit length within the stated bound
         a = SymInt(z3.If(s.t >= 0, s.t, -s.t))
@@ -740,6 +750,9 @@ class SymBytes:
 
     def __ge__(self, o):
         return _mk_bool(SymBytes.of(o).lt_term(self, False))
+
+    def hex(self):
+        return SymHex(self)
 
     def decode(self, enc="ascii"):
         if self.is_concrete():
